@@ -6,6 +6,7 @@ import (
 	"time"
 
 	"github.com/tokenized/pkg/bitcoin"
+	"github.com/tokenized/pkg/storage"
 )
 
 type VerifUnconfirmed struct {
@@ -39,3 +40,6 @@ func (repo *TxRepository) VerifShiftClocks(d time.Duration) {
 		v.time = v.time.Add(-d)
 	}
 }
+
+// VerifStore returns the storage the repository works on.
+func (repo *BlockRepository) VerifStore() storage.Storage { return repo.store }
